@@ -59,7 +59,69 @@ def gen(module, cfg, tag, work, name, timeout=600, simulate=None, depth=None, wo
     return path, len(uniq), r
 
 
-def validate_impl_trace(res, work, path, name, i, pid):
+def tests_trace(res, work, pid):
+    """trace validation of the repository's own tests: the iwes test-suite is run with the hooks compiled in and
+    IWE_VERIF_TRACE set (crates/iwes/src/router/verif.rs writes every hook point to that file), and the recorded executions of
+    every server the tests started are validated line by line against Router.tla (Trace_Router)"""
+    trace = os.path.join(work, "tests_trace.ndjson")
+    if os.path.exists(trace):
+        os.remove(trace)
+    tgt = os.path.join(HARNESS, "target", "iwes-tests")
+    env = {"RUSTFLAGS": "--cfg iwe_verif --check-cfg cfg(iwe_verif)", "IWE_VERIF_TRACE": trace, "CARGO_TARGET_DIR": tgt,
+           "CARGO_NET_OFFLINE": "true"}
+    rc, out, _ = run(["cargo", "test", "-p", "iwes", "--offline", "--", "--test-threads=1"], 3000, cwd=REPO, env=env)
+    if rc != 0 or not os.path.exists(trace):
+        raise ToolError("the iwes test-suite did not run with the hooks compiled in:\n" + out[-3000:])
+    lines = [json.loads(l) for l in open(trace) if l.strip()]
+    cases, cur = [], None
+    for e in lines:
+        if e["ev"] == "RouterNew":
+            cur = []
+            cases.append(cur)
+        elif cur is not None:
+            cur.append(e)
+    outl = []
+    for ci, evs in enumerate(cases):
+        outl.append({"ev": "Reset", "case": ci})
+        rmap, nnot, skip = {}, 0, False
+        computed = {e["id"] for e in evs if e["ev"] == "Gate" and e["at"] == "WComputed"}
+
+        def rid(i):
+            if i not in rmap:
+                rmap[i] = len(rmap) + 1
+                # (the client's send is not a hook point: it is placed right before the first sign of the request;
+                # the class is what the recorded execution later shows - a result was computed, or not)
+                outl.append({"ev": "SendReq", "r": rmap[i], "key": "a", "cls": "ok" if i in computed else "panic"})
+            return rmap[i]
+        for e in evs:
+            if e["ev"] == "ReqTaken":
+                outl.append({"ev": "ReqTaken", "r": rid(e["id"])})
+            elif e["ev"] == "Gate":
+                outl.append({"ev": "Gate", "at": e["at"], "r": rid(e["id"])})
+            elif e["ev"] == "NotifBegin":
+                if e["method"] in ("textDocument/didChange", "textDocument/didSave"):
+                    nnot += 1
+                    outl.append({"ev": "SendNot", "n": nnot, "key": "a"})
+                    outl.append({"ev": "NotifBegin", "method": e["method"]})
+                    skip = False
+                else:
+                    skip = True
+            elif e["ev"] == "NotifDone":
+                if not skip:
+                    outl.append(e)
+                skip = False
+            else:
+                outl.append(e)
+    outl.append({"ev": "End"})
+    conv = os.path.join(work, "tests.events.0.ndjson")
+    with open(conv, "w") as f:
+        f.write("\n".join(json.dumps(x) for x in outl) + "\n")
+    validate_impl_trace(res, work, conv, "tests", 0, pid, cfg="Trace_Router_tests.cfg")
+    res.cov["repo_tests_servers"] = len(cases)
+    res.cov["repo_tests_hook_events"] = len(lines)
+
+
+def validate_impl_trace(res, work, path, name, i, pid, cfg="Trace_Router.cfg"):
     """recorded hook-level trace of the real Router must be a behaviour of Router.tla (Trace_Router); a rejected line is a
     violation of the case it belongs to, and validation resumes at the next case"""
     lines = open(path).read().splitlines()
@@ -69,7 +131,7 @@ def validate_impl_trace(res, work, path, name, i, pid):
         if start:
             with open(tr, "w") as f:
                 f.write("\n".join(lines[start:]) + "\n")
-        r = tlc("Trace_Router.tla", "Trace_Router.cfg", os.path.join(work, "trr_%s_%d" % (name, i)), workers=1, timeout=900,
+        r = tlc("Trace_Router.tla", cfg, os.path.join(work, "trr_%s_%d" % (name, i)), workers=1, timeout=900,
                 env={"TRACE": tr}, trace_mode=True)
         res.cov["impl_trace_states"] = res.cov.get("impl_trace_states", 0) + r["distinct"]
         if '"ACCEPTED"' in r["out"]:
@@ -191,6 +253,8 @@ def check_c11(tier):
     dwells = sum(open(os.path.join(work, "dwell.events.%d.ndjson" % i)).read().count('"ev":"Dwell"') for i in range(8))
     if dwells == 0:
         raise ToolError("the dwell schedules never held a worker while a notification was taken")
+    if tier == "thorough":
+        tests_trace(res, work, pid)
     res.cov["dwell_schedules"] = min(ndwell, len(picked))
     res.cov["dwells"] = dwells
     total += min(ndwell, len(picked))
@@ -245,6 +309,8 @@ def check_c12(tier):
     total += n
     res.cov["samples"].append({"schedule": json.loads(open(path).readline())})
     replay_and_judge(res, work, "router-replay", path, "sched", 8, ["--keys", "a"], pid)
+    if tier == "thorough":
+        tests_trace(res, work, pid)
     res.cov["traces_validated_against_impl"] = total
     res.cov["evaluations"] = total
     res.cov["distinct_nontrivial"] = total
